@@ -4,13 +4,14 @@ writes sa/selftest/fixes/revert-<Dnn>.diff from /repo HEAD~0 (the last commit), 
 import json, os, subprocess, sys
 VERIF = os.path.dirname(os.path.dirname(os.path.abspath(__file__)))
 did, props, rule, witness = sys.argv[1:5]
+REV = sys.argv[5] if len(sys.argv) > 5 else "HEAD"
 props = props.split(",")
-commit = subprocess.run("git -C /repo rev-parse --short HEAD", shell=True, capture_output=True, text=True).stdout.strip()
-diff = subprocess.run("git -C /repo diff HEAD~1 HEAD -- func_adl", shell=True, capture_output=True, text=True).stdout
+commit = subprocess.run(f"git -C /repo rev-parse --short {REV}", shell=True, capture_output=True, text=True).stdout.strip()
+diff = subprocess.run(f"git -C /repo diff {REV}~1 {REV} -- func_adl", shell=True, capture_output=True, text=True).stdout
 open(os.path.join(VERIF, f"sa/selftest/fixes/revert-{did}.diff"), "w").write(diff)
 kp = os.path.join(VERIF, "known_findings.json"); k = json.load(open(kp))
 if not any(e["id"] == did for e in k["findings"]):
-    subject = subprocess.run("git -C /repo log -1 --format=%s", shell=True, capture_output=True, text=True).stdout.strip()
+    subject = subprocess.run(f"git -C /repo log -1 --format=%s {REV}", shell=True, capture_output=True, text=True).stdout.strip()
     k["findings"].append({"id": did, "status": "fixed", "commit": commit, "properties": props, "rule": rule, "subject": subject, "witness": witness})
     json.dump(k, open(kp, "w"), indent=1)
 vp = os.path.join(VERIF, "sa/selftest/variants.json"); d = json.load(open(vp))
